@@ -469,16 +469,23 @@ class ClientRig:
                 sc.sent.append(b'EOF')
                 peer.end()
                 ended = True
+            elif act[0] == 'cancel':        # ('cancel', caller) — the caller abandons its request
+                tasks[act[1]].cancel()
             for _ in range(3):
                 await asyncio.sleep(0)
         outs = []
         for t in tasks:
+            if t.cancelled():
+                outs.append('cancelled')
+                continue
             try:
                 # a caller that never completes costs wall time: be patient only for the first few
                 outs.append(await asyncio.wait_for(t, wait if self.hangs < 6 else 0.15))
             except asyncio.TimeoutError:
                 self.hangs += 1
                 outs.append('hang')
+            except asyncio.CancelledError:
+                outs.append('cancelled')
         sc.outcomes = outs
         try:
             sftp.exit()
@@ -514,7 +521,8 @@ def gen_client_scenarios(ctx: Ctx, rng: Any) -> List[ClientScenario]:
     # anomalies, for every position and k <= 4
     for k in range(1, 5):
         for pos in range(k + 1):
-            for anomaly in ['unknown-id', 'duplicate', 'wrong-type', 'short', 'eof', 'error-status', 'ok-for-typed']:
+            for anomaly in ['unknown-id', 'duplicate', 'wrong-type', 'short', 'eof', 'error-status', 'ok-for-typed',
+                            'cancel']:
                 for _rep in range(ctx.n(1, 3)):
                     v = rng.choice(L.VERSIONS)
                     kinds = [rng.choice(kinds_pool) for _ in range(k)]
@@ -549,6 +557,14 @@ def gen_client_scenarios(ctx: Ctx, rng: Any) -> List[ClientScenario]:
                             continue
                         a = acts[pos]
                         acts[pos] = ('reply', a[1], 101, OK_STATUS)
+                    elif anomaly == 'cancel':
+                        # a caller gives up (timeout / task.cancel()) before its reply arrives; the server still
+                        # answers it, exactly once: the late reply must be dropped and everybody else served
+                        if pos >= k:
+                            continue
+                        acts.insert(pos, ('cancel', acts[pos][1]))
+                        if rng.random() < 0.5:
+                            acts.append(acts.pop(pos + 1))      # ... or after everybody else's
                     # make sure nobody is left waiting: end the session after the script
                     acts.append(('eof',))
                     scs.append(ClientScenario(v, kinds, acts, 'anomaly:' + anomaly))
@@ -630,12 +646,19 @@ def model_client(ctx: Ctx, scs: List[ClientScenario]) -> List[List[str]]:
                     exp[int(ws[1])] = {'badmsg': 'sftp 5', 'connlost': 'sftp 7', 'noconn': 'sftp 6'}[ws[2]]
         if ids_model != sc.real_ids:
             exp = ['id-allocation model=%s impl=%s' % (ids_model, sc.real_ids)] * len(sc.kinds)
+        cancelled = {a[1] for a in sc.actions if a[0] == 'cancel'}
         expected.append(exp)
+        sc.cancelled = cancelled
     if fin_lines:
         fo = ctx.model(DRIVER, fin_lines)
         for (si, c), o in zip(fin_idx, fo):
             if expected[si][c] == '?':
                 expected[si][c] = L.expected_from_outcome(scs[si].kinds[c], o)
+    for sc, exp in zip(scs, expected):
+        # a caller that abandoned its request sees nothing; the model still routes (and drops) its reply
+        for c in getattr(sc, 'cancelled', ()):
+            if c < len(exp) and not exp[c].startswith('id-allocation'):
+                exp[c] = 'cancelled'
     return expected
 
 
@@ -644,7 +667,18 @@ def run_client_scenarios(scs: List[ClientScenario]) -> None:
         rig = ClientRig()
         await rig.open()
         for sc in scs:
-            await rig.run(sc)
+            try:
+                await asyncio.wait_for(rig.run(sc), 20)
+            except Exception as e:      # the client under test broke (mutated code): record it, start afresh
+                sc.outcomes = ['hang'] * len(sc.kinds) if isinstance(e, asyncio.TimeoutError) else \
+                    ['rig-broken:' + type(e).__name__] * len(sc.kinds)
+                try:
+                    rig.conn.abort()
+                except Exception:
+                    pass
+                await pair.settle(5)
+                rig = ClientRig()
+                await rig.open()
         rig.conn.abort()
         await pair.settle(10)
     pair.run(go(), timeout=1500)
@@ -970,8 +1004,14 @@ def judge_client_scenario(sc: ClientScenario) -> Optional[Tuple[str, str]]:
         else:
             broken_at = n           # unknown or duplicate id: the session is torn down
             break
+    gave_up = {a[1] for a in sc.actions if a[0] == 'cancel'}
     for c in range(k):
         got = sc.outcomes[c]
+        if c in gave_up and got == 'cancelled':
+            continue
+        if got.startswith('rig-broken'):
+            return ('client-session-unusable:' + sc.label, f'the SFTP client could not even issue the requests of '
+                    f'this scenario ({got}): an earlier scenario left the connection unusable')
         if got == 'hang':
             return ('client-caller-hangs:' + sc.label, f'caller {c} ({sc.kinds[c]}) never completed; '
                     f'sent={[p.hex() for p in sc.sent]} outcomes={sc.outcomes}')
